@@ -186,6 +186,8 @@ def oracle(pf, keys, fsel, key, bsel, limit):
 
 
 def canon_result(r, bsel):
+    if isinstance(bsel, int) and isinstance(r, (list, tuple)) and len(r) == 1:
+        r = r[0]            # a numpy scalar box index may be answered like a one-element index list
     if isinstance(bsel, int):
         return [gen.arr_canon(r)]
     return [gen.arr_canon(a) for a in r]
@@ -244,25 +246,42 @@ def run_case(seed):
         count(f"bsel={bkind}")
         reuse = rng.random() < 0.5
         count(f"stream object reused={reuse}")
+        # numpy-typed forms of the same selectors (indices coming out of np.argmax / np.flatnonzero ...): a derived
+        # generator, so that the other choices of the seed stay what they were
+        r2 = random.Random(seed * 131 + k)
+        fsel_i, bsel_i, typed_scalar = fsel, bsel, False
+        if r2.random() < 0.3:
+            ity = r2.choice([np.int64, np.int32, np.int16])
+            if isinstance(fsel, int):
+                fsel_i, typed_scalar = ity(fsel), True
+            elif isinstance(fsel, list) and fsel and isinstance(fsel[0], int):
+                fsel_i = np.array(fsel, dtype=ity)
+            if isinstance(bsel, int) and r2.random() < 0.5:
+                bsel_i, typed_scalar = np.int64(bsel), True
+            elif isinstance(bsel, list) and bsel and not isinstance(bsel[0], bool) and r2.random() < 0.5:
+                bsel_i = np.array(bsel, dtype=r2.choice([np.int64, np.int32]))
+            count(f"numpy-typed selector={type(fsel_i).__name__}/{getattr(fsel_i, 'dtype', '')}")
 
         def read():
             if not reuse:
-                return canon_result(pck[fsel][key][bsel], bsel)
+                return canon_result(pck[fsel_i][key][bsel_i], bsel)
             # the same stream object serves two reads: a first one (one box), then the measured one
-            stream = pck[fsel][key]
+            stream = pck[fsel_i][key]
             try:
                 stream[rng.randrange(len(pf.levels[lvn].boxes))]
             except Exception:
                 pass
-            return canon_result(stream[bsel], bsel)
+            return canon_result(stream[bsel_i], bsel)
         impl = core.outcome(read)
         st, mres = model.call('getitem', [[x.encode() for x in keys], lvs_sx[:limit + 1], enc_fsel(fsel), limit, key, enc_bsel(bsel)])
         mres = [[s, d] for s, d in mres] if st == 'ok' else None
         ires = impl[1] if impl[0] == 'ok' else None
         out['evals'] += 1
-        desc = dict(seed=seed, fsel=show(fsel), level=key, bsel=show(bsel), limit_level=limit_arg, meta=pf.meta,
+        desc = dict(seed=seed, fsel=show(fsel_i), level=key, bsel=show(bsel_i), limit_level=limit_arg, meta=pf.meta,
                     fields=keys)
         must, exp = oracle(pf, keys, fsel, key, bsel, limit)
+        if typed_scalar:
+            must = 'may'          # a numpy scalar where an int is meant may be refused; answered, it is that index
         nontrivial = exp is not None and len(exp) > 0
         if nontrivial:
             out['keys'].append(core.khash(seed, k))
@@ -279,7 +298,7 @@ def run_case(seed):
             out['violations'].append(dict(desc, kind='wrong-data' if ires is not None else 'refused-valid', what=bad,
                                           impl=short(ires), expected=short(exp), model=short(mres),
                                           replay='harness.props.c01.replay'))
-        elif ires != mres:
+        elif ires != mres and not (typed_scalar and ires is None):
             out['disagreements'].append(dict(desc, kind='model-vs-impl',
                                              what='implementation and Coq model (Entry.e_getitem) disagree; the property oracle holds on this input',
                                              correspondence='Reader.Level.stream_getitem / Select.norm_farg vs PlotfileCooker.__getitem__',
